@@ -191,6 +191,15 @@ func (e *Engine) VerifyFunc(t unitTarget) *Unit {
 					u.implicitNonNil = append(u.implicitNonNil, n.Name)
 				}
 			}
+			// elements of []*T parameters are allocated (or nil) in the pre-state
+			if sl, ok := unalias(pt).Underlying().(*types.Slice); ok {
+				if _, isPtr := unalias(sl.Elem()).Underlying().(*types.Pointer); isPtr {
+					al := u.heapGet(st, "$alloc", ArraySort(SInt, SBool))
+					j := Sym("j!al", SInt)
+					el := Select(slArr(sym), j)
+					st.assumeT(Forall([]*Term{j}, Imp(And(Ge(j, IntLit(0)), Lt(j, slLen(sym))), Or(Eq(el, IntLit(0)), Select(al, el))), []*Term{el}))
+				}
+			}
 			if n != nil && n.Name != "_" {
 				if obj := info.Defs[n]; obj != nil {
 					st.vars[obj] = sym
@@ -220,9 +229,11 @@ func (e *Engine) VerifyFunc(t unitTarget) *Unit {
 	}
 	env := c.newEnv(nil, body.Pos())
 	if t.spec != nil {
+		env.assuming = true
 		for _, cl := range t.spec.Requires {
 			st.assumeT(env.evalBool(st, st, cl.Expr, cl.Where))
 		}
+		env.assuming = false
 		for _, cl := range t.spec.Lets {
 			env.where = cl.Where
 			c.binds[cl.Label] = env.eval(st, st, cl.Expr)
@@ -552,7 +563,11 @@ func (e *Engine) InstallAxioms() []string {
 		errs = append(errs, c.u.specErrors...)
 		t := body
 		if len(qv) > 0 {
-			t = Forall(qv, body)
+			if p := pickPattern(body, qv); p != nil {
+				t = Forall(qv, body, []*Term{p})
+			} else {
+				t = Forall(qv, body)
+			}
 		}
 		e.d.AddAxiom(ax.Name, t)
 		e.axiomNames = append(e.axiomNames, ax.Name+" ("+ax.Where+")")
@@ -587,9 +602,11 @@ func (e *Engine) VerifyLemma(l *LemmaSpec) *Unit {
 			}
 		}
 	}
+	env.assuming = true
 	for _, cl := range l.Requires {
 		st.assumeT(env.evalBool(st, st, cl.Expr, cl.Where))
 	}
+	env.assuming = false
 	pos := token.NoPos
 	for _, cl := range l.Ensures {
 		t := env.evalBool(st, st, cl.Expr, cl.Where)
@@ -598,4 +615,47 @@ func (e *Engine) VerifyLemma(l *LemmaSpec) *Unit {
 	}
 	_ = pos
 	return u
+}
+
+
+// pickPattern chooses an E-matching trigger for an axiom: the smallest
+// application of an uninterpreted function that mentions every bound variable
+// and contains no arithmetic.
+func pickPattern(body *Term, qv []*Term) *Term {
+	var best *Term
+	bestSize := 1 << 30
+	var walk func(t *Term)
+	size := func(t *Term) int { return len(t.String()) }
+	hasArith := func(t *Term) bool {
+		s := map[string]bool{}
+		collectSyms(t, s)
+		for _, op := range []string{"+", "-", "*", "div", "mod", "<", "<=", ">", ">=", "=", "ite", "and", "or", "not", "=>"} {
+			if s[op] {
+				return true
+			}
+		}
+		return false
+	}
+	walk = func(t *Term) {
+		if t.Op == "app" && len(t.Args) > 0 && !builtinOps[t.Name] && !strings.HasPrefix(t.Name, "(as const") {
+			s := map[string]bool{}
+			collectSyms(t, s)
+			all := true
+			for _, v := range qv {
+				if !s[v.Name] {
+					all = false
+				}
+			}
+			if all && !hasArith(t) {
+				if sz := size(t); sz < bestSize {
+					best, bestSize = t, sz
+				}
+			}
+		}
+		for _, a := range t.Args {
+			walk(a)
+		}
+	}
+	walk(body)
+	return best
 }
